@@ -42,6 +42,7 @@ KNOWN_PAIRS = {
         "pcsaft_functional_wb_vs_eos_pure_dipole_quadrupole_one_molecule",
         "pcsaft_functional_aswb_vs_eos_pure_dipole_quadrupole_one_molecule"),
     "a mixture of two quadrupolar components with different sigma": ("pcsaft_functional_wb_vs_eos_quadrupolar_mixture",),
+    "the non-default option dq_variant = DQ44 with a dipolar and a quadrupolar component": ("pcsaft_functional_wb_vs_eos_dq44",),
 }
 
 
